@@ -75,7 +75,7 @@ Open Scope N_scope.
 # shards: groups packed by size (bytes of Gallina), one coqc per shard
 gtext = {g["ID"]: open(os.path.join(work, "cases", g["File"])).read() for g in groups}
 order = sorted(groups, key=lambda g: -len(gtext[g["ID"]]))
-nshard = 8
+nshard = 16 if ck.thorough() else 8
 shards = [[] for _ in range(nshard)]
 load = [0] * nshard
 for g in order:
